@@ -117,6 +117,13 @@ func c09Oracle(cx *lib.Ctx, src []byte, origin string) bool {
 			cx.Res.Fail(lib.Failure{Kind: "oracle", Key: "ast-changed", Desc: "formatted output parses to a different configuration", Input: string(src), Impl: string(out)})
 			return
 		}
+		// the other way into the same formatter: load the file and write it out (File.Bytes formats the tokens)
+		if wf, wd := hclwrite.ParseConfig(src, "", hcl.InitialPos); !wd.HasErrors() {
+			if fb := wf.Bytes(); !bytes.Equal(fb, out) {
+				cx.Res.Fail(lib.Failure{Kind: "oracle", Key: "file-route-differs", Desc: "hclwrite.ParseConfig(src).Bytes() differs from hclwrite.Format(src): both format the same tokens (" + origin + ")", Input: string(src), Impl: string(fb), Model: string(out)})
+				return
+			}
+		}
 		out2 := hclwrite.Format(out)
 		if !bytes.Equal(out2, out) {
 			cx.Res.Fail(lib.Failure{Kind: "oracle", Key: "not-idempotent", Desc: "Format(Format(src)) != Format(src)", Input: string(src), Impl: string(out) + "\n----\n" + string(out2)})
@@ -206,6 +213,19 @@ func runC09(cx *lib.Ctx) {
 		src := lib.RenderChecked(toks, lib.RandomLayout(r))
 		if r.Chance(1, 3) {
 			src = withHeredocs(r, src)
+		}
+		if r.Chance(1, 25) {
+			// one very long token (a comment, a string): output is written in pieces
+			long := strings.Repeat(r.Pick([]string{"ab ", "x", "é-", "0123456789 "}), 200+r.Intn(600))
+			switch r.Intn(3) {
+			case 0:
+				src = strings.Replace(src, "\n", " # "+long+"\n", 1)
+			case 1:
+				src += "zz_long = \"" + long + "\"\n"
+			default:
+				src = "/* " + long + " */\n" + src
+			}
+			res.Count("with-long-token")
 		}
 		if r.Chance(1, 10) {
 			src = strings.TrimRight(src, "\r\n")
